@@ -116,6 +116,40 @@ class C09:
             seen_l[lab] = name
             seen_n[nm] = name
 
+    def ncols(self, a):
+        """Number of columns of a 2-D array term, or None: np.c_[A, B] -> ncols(A) + ncols(B); x.sum(axis=1,
+        keepdims=True) -> 1; c - X -> ncols(X); a parameter p -> p.shape[1]."""
+        if a[0] == "param":
+            return ("sub", ("attr", a, "shape"), ("const", 1))
+        if a[0] == "sub" and a[1] == ("ext", "numpy.c_") and a[2][0] == "tuple":
+            parts = [self.ncols(x) for x in a[2][1]]
+            if any(p is None for p in parts):
+                return None
+            out = parts[0]
+            for p in parts[1:]:
+                out = ("bin", "+", out, p)
+            return out
+        if a[0] == "call" and a[1][0] == "attr" and a[1][2] == "sum" and dict(a[3]).get("axis") == ("const", 1) \
+                and dict(a[3]).get("keepdims") == ("const", True):
+            return ("const", 1)
+        if a[0] == "bin" and a[1] in ("+", "-", "*", "/"):
+            l, r = a[2], a[3]
+            if l[0] == "const":
+                return self.ncols(r)
+            if r[0] == "const":
+                return self.ncols(l)
+        return None
+
+    def ncols_norm(self, t):
+        """Rewrite every `<array>.shape[1]` inside t through ncols()."""
+        if not isinstance(t, tuple) or not t:
+            return t
+        if t[0] == "sub" and t[2] == ("const", 1) and t[1][0] == "attr" and t[1][2] == "shape":
+            n = self.ncols(t[1][1])
+            if n is not None:
+                return n
+        return tuple(self.ncols_norm(c) if isinstance(c, tuple) else c for c in t)
+
     # ------------------------------------------------------------------ R09.3
     def wrappers(self):
         ctx = self.ctx
@@ -160,8 +194,13 @@ class C09:
                 good = second == ext
                 k = kw.get("k")
                 labels = kw.get("labels")
-                want_labels = ("call", ("builtin", "range"), (("bin", "+", ncls, ("const", 1)),), ())
-                lab_ok = labels in (want_labels, ("call", ("builtin", "list"), (want_labels,), ()))
+                lab = labels
+                if lab is not None and lab[0] == "call" and lab[1] in (("builtin", "list"), ("builtin", "tuple")) and len(lab[2]) == 1:
+                    lab = lab[2][0]
+                lab_ok = False
+                if lab is not None and lab[0] == "call" and lab[1] == ("builtin", "range") and len(lab[2]) == 1 and not lab[3]:
+                    n = self.ncols_norm(lab[2][0])
+                    lab_ok = canon(n) == canon(("bin", "+", ncls, ("const", 1)))
                 if k == ("const", 3) and lab_ok:
                     ctx.ok("R09.3", site, "top_k_accuracy_score(k=3, labels=range(num_classes + 1))")
                 else:
@@ -212,15 +251,23 @@ class C09:
             if fname == "mean_average_precision" and t is not None and t[0] == "call":
                 kw = dict(t[3])
                 yt, ysc = kw.get("y_true", NONE), kw.get("y_score", NONE)
-                masks_t = [x[2] for x in walk(yt) if x[0] == "sub" and (x[2][0] in ("invert", "not"))]
-                masks_s = [x[2] for x in walk(ysc) if x[0] == "sub" and (x[2][0] in ("invert", "not"))]
-                isnan = [m for m in masks_t if any(y[0] == "call" and y[1] == ("ext", "numpy.isnan") for y in walk(m))]
-                if isnan and masks_s and masks_s[0] == isnan[0]:
-                    ctx.ok("R09.3", site, "unlabelled (NaN) rows removed from truths and scores with the same mask")
+                from sa.memo import cases
+                worst = None
+                ncases = 0
+                for facts, (yt_c, ysc_c) in cases(yt, ysc):
+                    ncases += 1
+                    masks_t = [x[2] for x in walk(yt_c) if x[0] == "sub" and (x[2][0] in ("invert", "not"))]
+                    masks_s = [x[2] for x in walk(ysc_c) if x[0] == "sub" and (x[2][0] in ("invert", "not"))]
+                    isnan = [m for m in masks_t if any(y[0] == "call" and y[1] == ("ext", "numpy.isnan") for y in walk(m))]
+                    if not (isnan and masks_s and masks_s[0] == isnan[0]):
+                        worst = (facts, len(masks_t), len(masks_s))
+                if worst is None:
+                    ctx.ok("R09.3", site, f"unlabelled (NaN) rows removed from truths and scores with the same mask ({ncases} path(s))")
                 else:
+                    when = ", ".join(f"{show(c)[:50]} = {v[1]}" for c, v in worst[0].items()) or "always"
                     ctx.bad("R09.3", file, fname, "y_true[~no_class], y_score[~no_class]",
                             "unlabelled items must be left out of mean average precision by masking BOTH arrays with the same "
-                            f"isnan(y_true) mask (truth masks: {len(masks_t)}, score masks: {len(masks_s)})", s.node.lineno)
+                            f"isnan(y_true) mask on every path (truth masks: {worst[1]}, score masks: {worst[2]} when {when})", s.node.lineno)
 
     # ------------------------------------------------------------------ R09.4
     def means(self):
@@ -242,8 +289,8 @@ class C09:
                     if arg is None:
                         continue
                     conj = conjuncts(e.live)
-                    guarded = arg in conj or ("cmp", "lt", ("const", 0), ("call", ("builtin", "len"), (arg,), ())) in conj \
-                        or ("cmp", "ne", ("call", ("builtin", "len"), (arg,), ()), ("const", 0)) in conj
+                    from sa.idioms import guarded_nonempty
+                    guarded = guarded_nonempty(e.live, arg)
                     if guarded:
                         ctx.ok("R09.4", site, f"mean over {show(arg)[:50]} guarded against an empty selection")
                     else:
